@@ -242,10 +242,14 @@ def _readback_signs(prog):
     mm, cls = class_of(prog, SR.BP, 'NodalAnalysisBiasPointSolution')
     ev = new_ev(prog)
     t, _ = method_term(prog, ev, mm, cls, 'get_current', [A('id')])
-    first = t.a if isinstance(t, Cond) else t
-    p = as_poly(first) if isinstance(first, (Poly, int)) else None
-    if p is not None and p.single() is not None and ('_voltage_source_currents' in repr(p.key()) or '_solution_vector' in repr(p.key())):
-        s_read = 1 if p.single()[1][0] > 0 else -1
+    # the path on which the current is READ from the solved vector (whichever test selects it): +/- one entry of the solution vector
+    signs = set()
+    for _, leaf in paths_of(t):
+        p = as_poly(leaf) if isinstance(leaf, (Poly, int)) else None
+        if p is not None and p.single() is not None and len(p.single()[0]) == 1 and ('_voltage_source_currents' in repr(p.key()) or '_solution_vector' in repr(p.key())) \
+                and 'get_voltage' not in repr(p.key()) and 'get_potential' not in repr(p.key()):
+            signs.add(1 if p.single()[1][0] > 0 else -1)
+    if len(signs) == 1: s_read = signs.pop()
     from . import incidence as INC
     rs = INC.rhs_signs(prog)
     if rs['I'] is not None and rs['QI'] is not None: s_rhs = rs['I'] * rs['QI']
